@@ -34,6 +34,10 @@ PROPS = {
     "C16": dict(targets=["Properties_C16.vo"], families=[("canvas", 1.0)], codes=[], extra="c16"),
     "C15": dict(targets=["Properties_C15.vo"], families=[("values", 1.0)], codes=[], extra="c15"),
     "C17": dict(targets=["Properties_C17.vo"], families=[("term", 1.0), ("term_wild", 0.3), ], codes=[1701]),
+    "C05": dict(targets=["Properties_C05.vo"], families=[("items", 1.0), ("garbage", 0.3)], codes=[], extra="c05", expand=True),
+    "C06": dict(targets=["Properties_C06.vo"], families=[("chunks", 1.0), ("items", 0.3)], codes=[], extra="c06", expand=True),
+    "C07": dict(targets=["Properties_C07.vo"], families=[("garbage", 1.0), ("chunks", 0.5), ("markup_wild", 1.0)], codes=[], extra="c07", expand=True),
+    "C20": dict(targets=["Properties_C20.vo"], families=[("chunks", 1.0), ("items", 0.5), ("garbage", 0.5)], codes=[], extra="c20", expand=True),
     "C18": dict(targets=["Properties_C18.vo"], families=[("term", 0.5)], codes=[101, 102]),
     "C19": dict(targets=["Properties_C19.vo"], families=[("term", 0.5)], codes=[102]),
 }
@@ -62,6 +66,14 @@ def gen_family(family, seed, n):
             lines += gen.gen_canvas_case(r, cid)
         elif family == "values":
             lines += gen.gen_value_case(r, cid)
+        elif family == "items":
+            lines += gen.gen_items_case(r, cid)
+        elif family == "chunks":
+            lines += gen.gen_chunks_case(r, cid)
+        elif family == "garbage":
+            lines += gen.gen_garbage_case(r, cid)
+        elif family == "markup_wild":
+            lines += gen.gen_markup_wild_case(r, cid)
         else:
             raise ValueError(family)
     return lines
@@ -169,7 +181,134 @@ def oracle_c15(impl_lines):
     return fails
 
 
-EXTRA = {"c16": oracle_c16, "c15": oracle_c15}
+def parse_cb(line):
+    """CB n | tok | tok ... -> list of token strings"""
+    parts = line.split(" | ")
+    return [p.strip() for p in parts[1:]]
+
+
+def oracle_c05(impl_lines):
+    """every delivery of well-formed items yields exactly the tokens Proto.v
+    says (one per item, in order)"""
+    fails = []
+    cases, order = vc.split_cases(impl_lines)
+    for cid in order:
+        expect, wf, armed = [], True, False
+        pending = None
+        for l in cases[cid]:
+            if l.startswith("> # ITEMS"):
+                expect = []
+                wf = l.strip().endswith("wf=1")
+                armed = True
+            elif l.startswith("> # EXPECT "):
+                expect.append(l[len("> # EXPECT "):].strip())
+            elif l.startswith("> T ") and " recv " in l:
+                pending = (list(expect), wf, armed)
+                armed = False
+            elif l.startswith("CB ") and pending:
+                exp, w, a = pending
+                pending = None
+                if a and w:
+                    got = parse_cb(l)
+                    if got != exp:
+                        k = next((i for i in range(max(len(got), len(exp))) if i >= len(got) or i >= len(exp) or got[i] != exp[i]), 0)
+                        fails.append((cid, "item %d decoded as [%s], the protocol says [%s] (%d tokens for %d items)" % (
+                            k, got[k] if k < len(got) else "<nothing>", exp[k] if k < len(exp) else "<nothing>", len(got), len(exp))))
+    return fails
+
+
+def oracle_c06(impl_lines):
+    """within a case every terminal receives the same byte stream under a
+    different partition: the concatenated tokens must agree, and every delivery
+    must produce exactly one callback"""
+    fails = []
+    cases, order = vc.split_cases(impl_lines)
+    for cid in order:
+        toks, recvs, cbs, streams = {}, {}, {}, {}
+        cur = None
+        for l in cases[cid]:
+            if l.startswith("> T ") and " recv " in l:
+                t = l.split()
+                cur = t[2]
+                recvs[cur] = recvs.get(cur, 0) + 1
+                streams[cur] = streams.get(cur, "") + (t[4] if t[4] != "-" else "")
+            elif l.startswith("> "):
+                cur = None
+            elif l.startswith("CB ") and cur is not None:
+                cbs[cur] = cbs.get(cur, 0) + 1
+                toks.setdefault(cur, []).extend(parse_cb(l))
+        for t in recvs:
+            if cbs.get(t, 0) != recvs[t]:
+                fails.append((cid, "terminal %s: %d deliveries produced %d callback invocations" % (t, recvs[t], cbs.get(t, 0))))
+        byst = {}
+        for t in recvs:
+            byst.setdefault(streams[t], []).append(t)
+        for st, ts in byst.items():
+            for t in ts[1:]:
+                if toks.get(t, []) != toks.get(ts[0], []):
+                    fails.append((cid, "stream %s: tokens differ between the partition of terminal %s and that of terminal %s" % (st or "-", ts[0], t)))
+    return fails
+
+
+ABSTRACT = set(range(128, 151))
+CSI_KEY = {65: 128, 66: 129, 67: 131, 68: 130, 72: 132, 70: 134, 73: 9, 90: 137}
+SS3_KEY = {65: 128, 66: 129, 67: 131, 68: 130, 72: 132, 70: 134, 73: 9, 77: 138, 80: 139, 81: 140, 82: 141, 83: 142}
+KEYPAD_KEY = {1: 132, 2: 133, 3: 127, 4: 134, 5: 135, 6: 136, 11: 139, 12: 140, 13: 141, 14: 142, 15: 143,
+              17: 144, 18: 145, 19: 146, 20: 147, 21: 148, 23: 149, 24: 150}
+
+
+def oracle_c20(impl_lines):
+    """an abstract key only from a sequence / line ending that encodes it; a
+    single ordinary byte is the key whose value is that byte"""
+    fails = []
+    known = {f["id"]: f for f in vc.load_known().get("findings", [])}
+    d3 = set(known.get("D3", {}).get("match", {}).get("bytes", []))
+    cases, order = vc.split_cases(impl_lines)
+    for cid in order:
+        for l in cases[cid]:
+            if not l.startswith("CB "):
+                continue
+            for tk in parse_cb(l):
+                a = tk.split()
+                if a[0] != "VK":
+                    continue
+                key = int(a[1])
+                if a[4] == "B":
+                    b = int(a[5])
+                    if key == 138 and b == 10:
+                        continue
+                    if key != b:
+                        fails.append((cid, "single byte %d reported as key %d" % (b, key)))
+                    elif key in ABSTRACT:
+                        if b in d3:
+                            fails.append((cid, "KNOWN:D3"))
+                        else:
+                            fails.append((cid, "single byte %d reported as abstract key %d" % (b, key)))
+                else:
+                    init, cmd = int(a[5]), int(a[6])
+                    nargs = int(a[9])
+                    arg0 = a[10] if nargs > 0 else "-"
+                    want = None
+                    if init == 91 and cmd == 126:
+                        try:
+                            n = int(bytes.fromhex(arg0).decode()) if arg0 != "-" else None
+                        except ValueError:
+                            n = None
+                        want = KEYPAD_KEY.get(n)
+                    elif init == 91:
+                        want = CSI_KEY.get(cmd)
+                    elif init == 79:
+                        want = SS3_KEY.get(cmd)
+                    if want != key:
+                        fails.append((cid, "key %d reported for a control sequence (initiator %d, command %d, first argument %s) that does not encode it" % (key, init, cmd, arg0)))
+    return fails
+
+
+def oracle_c07(impl_lines):
+    return oracle_c05(impl_lines)
+
+
+EXTRA = {"c16": oracle_c16, "c15": oracle_c15, "c05": oracle_c05, "c06": oracle_c06, "c20": oracle_c20, "c07": oracle_c07}
 
 
 def known_for(pid):
@@ -261,7 +400,7 @@ def run_check(pid, tier, seed, replay=None):
 
     def do_script(fam, sd, lines, tag):
         res = vc.run_script(ctx, "%s-%s-%s" % (fam, sd, tag), lines,
-                            want_oracle=bool(codes), want_model=True)
+                            want_oracle=bool(codes), want_model=True, expand=P.get("expand", False))
         cases, order = vc.split_cases(lines)
         stats["evaluations"] += len(order)
         fs = stats["families"].setdefault(fam, {"cases": 0, "ops": 0})
@@ -293,6 +432,9 @@ def run_check(pid, tier, seed, replay=None):
                     fails.append((fam, sd, f, cases.get(f["case"])))
         if extra:
             for (cid, why) in extra(res["impl_lines"]):
+                if why.startswith("KNOWN:"):
+                    known_hits[why[6:]] = known_hits.get(why[6:], 0) + 1
+                    continue
                 fails.append((fam, sd, {"case": cid, "code": 0, "cfg": "-", "op": -1, "why": why}, cases.get(cid)))
         return res
 
@@ -324,14 +466,14 @@ def run_check(pid, tier, seed, replay=None):
         fam, sd, f, case_lines = real_fails[0]
 
         def still(ls):
-            r = vc.run_script(ctx, "shrink", ls, want_oracle=bool(codes), want_model=False)
+            r = vc.run_script(ctx, "shrink", ls, want_oracle=bool(codes), want_model=False, expand=P.get("expand", False))
             if extra:
-                return any(True for _ in extra(r["impl_lines"]))
+                return any(not w.startswith("KNOWN:") for (_c, w) in extra(r["impl_lines"]))
             return any(x["code"] == f["code"] and x["cfg"] == f["cfg"]
                        and not match_known(pid, x, ls, r["oracle_fails"]) for x in r["oracle_fails"])
         small = vc.shrink(ctx, case_lines, still) if case_lines else []
         why = f.get("why") or CLAUSE.get(f["code"], "")
-        r = vc.run_script(ctx, "final", small, want_oracle=bool(codes), want_model=True)
+        r = vc.run_script(ctx, "final", small, want_oracle=bool(codes), want_model=True, expand=P.get("expand", False))
         path = vc.write_replay(pid, sd, "%s-%s" % (fam, f["case"]), small, {
             "property": pid, "clause": why, "oracle_code": f["code"], "reference_terminal": f["cfg"],
             "family": fam, "seed": sd, "case": f["case"], "failing_op_index": f["op"],
@@ -340,7 +482,26 @@ def run_check(pid, tier, seed, replay=None):
         vc.log("VIOLATION property=%s replay=%s" % (pid, path))
         rc = 1
     elif crashes and pid == "C07":
-        pass
+        # the sanitizer build stopped: undefined behaviour / crash on some input
+        fam, sd, crc, cerr, lines_all, res = crashes[0]
+        last = None
+        for l in res["impl_lines"]:
+            m = re.match(r"^> CASE (\S+)", l)
+            if m:
+                last = m.group(1)
+        cases_all, _ = vc.split_cases(lines_all)
+        case_lines = cases_all.get(last, [])
+
+        def still_crash(ls):
+            r = vc.run_script(ctx, "shrink", ls, want_oracle=False, want_model=False, expand=P.get("expand", False))
+            return r["impl_rc"] != 0
+        small = vc.shrink(ctx, case_lines, still_crash) if case_lines else []
+        path = vc.write_replay(pid, sd, "%s-%s-crash" % (fam, last), small, {
+            "property": pid, "clause": "the library stopped under AddressSanitizer/UndefinedBehaviourSanitizer (or crashed / hung) on this input",
+            "family": fam, "seed": sd, "case": last, "implementation_exit": crc, "sanitizer_report": cerr[-3500:],
+            "how_to_replay": "bin/check %s --replay <this file>" % pid})
+        vc.log("VIOLATION property=%s replay=%s" % (pid, path))
+        rc = 1
     elif proof_failed or mismatches or crashes:
         info = {"property": pid, "no_failing_input_found": "the property oracle passed on every explored case",
                 "proof_obligations_broken": ", ".join(proof_failed) or "none",
